@@ -77,14 +77,17 @@ inductive Op
   | accept (l : Nat)
   /-- a woken acceptor of listener `l` re-acquires the lock and re-runs the loop test -/
   | recheck (l : Nat)
-  /-- the underlying listener `l` hands a connection to one pending acceptor -/
+  /-- the underlying listener `l` hands a connection to one pending acceptor (also when `l` has been
+  closed meanwhile: the inner `Accept` runs outside the lock and may win the race) -/
   | deliver (l : Nat)
   /-- the underlying `Accept` of one pending acceptor of `l` returns an error -/
   | fail (l : Nat)
-  /-- `limitConn.Close` on connection `k` (any number of times) -/
-  | close (k : Nat)
-  /-- `limitListener.Close` on listener `l` -/
-  | lclose (l : Nat)
+  /-- `limitConn.Close` on connection `k` (any number of times); `innerErr`: the wrapped
+  `net.Conn.Close` returns an error (the slot is given back all the same) -/
+  | close (k : Nat) (innerErr : Bool)
+  /-- `limitListener.Close` on listener `l`; `innerErr`: the wrapped `net.Listener.Close` returns an
+  error (the listener counts as closed and its waiters are released all the same) -/
+  | lclose (l : Nat) (innerErr : Bool)
 deriving DecidableEq, Repr
 
 inductive Out
@@ -94,6 +97,7 @@ inductive Out
   | conn (k : Nat)
   | ok
   | errClosed
+  | innerErr     -- the release / close took place, the wrapped object's own Close error is returned
   | none         -- op not enabled in this state
 deriving DecidableEq, Repr
 
@@ -129,22 +133,26 @@ def attempt (v : Variant) (s : St) (l : Nat) : St × Out :=
 def release (v : Variant) (s : St) : St :=
   wake v.wake { s with c := s.c.decrement }
 
+/-- What a `Close` that took effect returns: the wrapped object's error, if any. -/
+def closeOut (innerErr : Bool) : Out := if innerErr then .innerErr else .ok
+
 def step (v : Variant) (s : St) : Op → St × Out
   | .accept l => attempt v s l
   | .recheck l =>
     if l ∈ s.woken then attempt v { s with woken := s.woken.erase l } l else (s, .none)
   | .deliver l =>
-    if l ∈ s.pending ∧ l ∉ s.closed then
+    if l ∈ s.pending then
       ({ s with pending := s.pending.erase l, open_ := s.open_ ++ [s.nextConn],
                 nextConn := s.nextConn + 1 }, .conn s.nextConn)
     else (s, .none)
   | .fail l =>
     if l ∈ s.pending then (release v { s with pending := s.pending.erase l }, .ok) else (s, .none)
-  | .close k =>
-    if k ∈ s.open_ then (release v { s with open_ := s.open_.erase k }, .ok) else (s, .errClosed)
-  | .lclose l =>
+  | .close k e =>
+    if k ∈ s.open_ then (release v { s with open_ := s.open_.erase k }, closeOut e)
+    else (s, .errClosed)
+  | .lclose l e =>
     if l ∈ s.closed then (s, .errClosed)
-    else (wake .broadcast { s with closed := l :: s.closed }, .ok)
+    else (wake .broadcast { s with closed := l :: s.closed }, closeOut e)
 
 def run (v : Variant) (s : St) : List Op → St
   | [] => s
@@ -163,43 +171,71 @@ instance (s : St) : Decidable (Stuck s) := by unfold Stuck; infer_instance
 /-- The number the property talks about: accepted-and-open connections plus pending accepts. -/
 def count (s : St) : Nat := s.open_.length + s.pending.length
 
+/-- The log of `count` after every step, most recent first (`log` is what has been recorded so far).
+Only the observable number enters the log, not the counter's `isAccepting` flag. -/
+def hist (v : Variant) (s : St) (log : List Nat) : List Op → List Nat
+  | [] => log
+  | o :: r => hist v (step v s o).1 (count (step v s o).1 :: log) r
+
+/-- Declarative reading of "the limiter is stopped", over the log alone: at some moment the number was
+`stop`, and at every later moment (the current one included) it was above `resume`. -/
+def StoppedLog (stop resume : Nat) (log : List Nat) : Prop :=
+  ∃ recent older, log = recent ++ stop :: older ∧ ∀ n ∈ recent, resume < n
+
 /-! ## Pipeline semaphore (`acceptTCPMsg`) -/
 
-/-- One TCP/TLS connection: `n` = `MaxPipelineCount`; `inflight` = workers between `Submit` and
-`msgSema.Release`; `blocked` = the reading goroutine sits in `msgSema.Acquire` holding one message;
-`queued` = messages still in the socket buffer. -/
+/-- One TCP/TLS connection.  `n` = `MaxPipelineCount` = capacity of the `ChanSemaphore` made in
+`serveTCPConn`; `tokens` = values sitting in the semaphore's channel; `running` = workers between
+`Submit` and the end of `serveTCPMessage` (the deferred `Release` follows); `blocked` = the reading
+goroutine sits in `msgSema.Acquire` holding one message; `queued` = messages still in the socket
+buffer; `dead` = `acceptTCPMsg` returned an error (`Acquire` gave up on the request context), the
+read loop of this connection is over. -/
 structure Pipe where
   n : Nat
-  inflight : Nat
+  tokens : Nat
+  running : Nat
   blocked : Bool
   queued : Nat
+  dead : Bool
 deriving DecidableEq, Repr
 
 inductive POp
-  | query   -- the client writes one more query
-  | done    -- one worker finishes (deferred Release)
+  | query    -- the client writes one more query
+  | done     -- one worker finishes (deferred Release)
+  | timeout  -- the request context of the message held in `Acquire` expires
 deriving DecidableEq, Repr
 
-def Pipe.init (n : Nat) : Pipe := { n := n, inflight := 0, blocked := false, queued := 0 }
+def Pipe.init (n : Nat) : Pipe :=
+  { n := n, tokens := 0, running := 0, blocked := false, queued := 0, dead := false }
 
-/-- The reader loop runs until it blocks: read a message, `Acquire`, `Submit`. -/
+/-- The reader loop runs until it blocks: read a message, `Acquire` (channel send, possible while
+fewer than `n` tokens are in the channel), `Submit`. -/
 def Pipe.pump : Nat → Pipe → Pipe
   | 0, p => p
   | fuel + 1, p =>
-    if p.blocked then
-      if p.inflight < p.n then Pipe.pump fuel { p with blocked := false, inflight := p.inflight + 1 }
+    if p.dead then p
+    else if p.blocked then
+      if p.tokens < p.n then
+        Pipe.pump fuel { p with blocked := false, tokens := p.tokens + 1, running := p.running + 1 }
       else p
     else if p.queued = 0 then p
     else Pipe.pump fuel { p with queued := p.queued - 1, blocked := true }
 
 def Pipe.step (p : Pipe) : POp → Pipe
-  | .query => Pipe.pump (2 * (p.queued + 1) + 2) { p with queued := p.queued + 1 }
+  | .query => Pipe.pump (2 * p.queued + 4) { p with queued := p.queued + 1 }
   | .done =>
-    if p.inflight = 0 then p
-    else Pipe.pump (2 * p.queued + 2) { p with inflight := p.inflight - 1 }
+    if p.running = 0 then p
+    else Pipe.pump (2 * p.queued + 4) { p with running := p.running - 1, tokens := p.tokens - 1 }
+  | .timeout =>
+    if p.blocked ∧ ¬ p.dead then { p with blocked := false, dead := true } else p
 
 def Pipe.run (p : Pipe) : List POp → Pipe
   | [] => p
   | o :: r => Pipe.run (p.step o) r
+
+/-- The reader has done all it can: it is gone, or it holds a message and the semaphore is full, or
+the socket buffer is empty. -/
+def Pipe.Settled (p : Pipe) : Prop :=
+  p.dead = true ∨ (p.blocked = true ∧ p.n ≤ p.tokens) ∨ (p.blocked = false ∧ p.queued = 0)
 
 end Agd.ConnLimit
